@@ -38,6 +38,10 @@ register("C04", "TLA+ relation Acceptable(history, cfg, report) + transcription 
          "TLC proves on every history of the bounded family that the (repaired) selection algorithm satisfies the relation and that the violation measure equals the documented formula; every enumerated instance is built as a real Database + OptimizationProblem, and problem.optimum, OptimizationResult.from_optimization_problem, last_point, feasible_points, check_design_point_is_feasible, Pareto fronts are fed back to TLC which evaluates the relation clause by clause on the real reports (ties and under-specified cases are accepted as a relation; a tie-breaking change is a negative control).",
          "Trusted: TLC; values are quarters (exact). Feasible = every constraint recorded and within tolerance. Vector objectives only in the Pareto clause. Bounded: <=3 (thorough 4) points, <=2 constraints.",
          "DESIGN.md section 4 C04, 9.4")
+register("C07", "TLA+ exact integer model of the coupled-derivative assembly (minimal couplings by two-way traversal with merged groups and caches, block layout, -I residual diagonal, direct/adjoint solves, split by variable) vs an independent closed form, checked by TLC; instances and request histories replayed on real MDAs / JacobianAssembly",
+         "TLC checks IFT (the closed form satisfies the implicit-function equations), AssembledIsClosedForm, DirectEqAdjoint, SubsetIndependence, StructuralZeros, Shapes, CacheCoherent and NoRaise on every enumerated unimodular system (9 topologies incl. weak head/tail, self-coupled, two groups in sequence; sizes 1-2) and request history, and refutes the pre-fix rules on every run; each instance and history is replayed on real MDA classes and JacobianAssembly.total_derivatives over mode x matrix type x LU x solvers x Jacobian kinds and every block equals TLC's integer block to 1e-9 with its shape.",
+         "Trusted: TLC; unimodular residual Jacobians (integer inverse, condition number small). Disciplines with residual/state variables, conditioning and iterative-solver tolerances are outside the slice.",
+         "DESIGN.md section 4 C07, 9.4")
 register("C08", "TLA+ definitions of the dependency graph, SCCs, the ValidSequence relation and the documented coupling sets + the code-shaped peel/reverse construction checked by TLC on every enumerated graph; real CouplingStructure/DependencyGraph/chains results fed back to TLC (DepGraphReport) which evaluates every clause",
          "TLC checks on every enumerated system (all graphs with <=3 nodes incl. self-loops, isolated nodes, duplicated names, all listing orders; n=4 sampled in quick and exhaustive in thorough; shared-variable families) that the code-shaped construction yields a valid schedule and that exact composition holds on the nilpotent integer slice; each instance is built as real disciplines and the sequences, coupling sets and the outputs/execution orders of MDOChain, MDOParallelChain, MDOInitializationChain and MDAChain are judged by TLC against the relation (valid alternative schedules are accepted; negative controls stay quiet).",
          "Trusted: TLC; integer data-flow disciplines (exact); exact composition is demanded where each name has a single producer; MDA exactness only with unaccelerated fixed-point iterations on the nilpotent slice. n>=6 not covered.",
